@@ -185,7 +185,7 @@ Notation l0 := (fun d => d_level (getd (fq_world sc) d)).
 
 Theorem reach_in_DS s : f_out (fq_world sc) = [] -> reach_in sc s -> DS p0 l0 s.
 Proof.
-  intro O0. induction 1 as [s WF E|s o s' _ IH E|s t k p s' _ IH E|s s' _ IH E|s d en' _ IH E].
+  intro O0. induction 1 as [s WF E|s o s' _ IH E|s t k p s' _ IH E|s s' _ IH E|s d en' _ IH E|s d ups s' _ IH E].
   - unfold do_fxop in E. cbn [fst snd] in E.
     apply (DS_fin wsd p0 l0 (fq_world sc) init_env (init_world (fl_fuel (fq_world sc)) (now (init_env (A:=fact))) (fq_world sc)) s O0); [|apply RL_init_world|exact E].
     intro d. cbn. split; [lia|reflexivity].
@@ -200,6 +200,8 @@ Proof.
   - destruct IH as [O H]. cbn [fst snd]. split; [exact O|].
     apply (D_same p0 l0 (fst s) (fst s) (snd s) en'); [reflexivity| |exact H].
     unfold start_run, schedule in E. cbn in E. destruct (now (snd s) + d <? now (snd s)); [discriminate|]. injection E as <-. reflexivity.
+  - destruct IH as [O H]. unfold do_fxop in E.
+    apply (DS_fin wsd p0 l0 (fst s) (snd s) (late_create (fl_fuel (fst s)) (now (snd s)) (fst s) d ups) s' O H); [apply RL_late_create|exact E].
 Qed.
 
 (** * C15: counters and last records *)
